@@ -587,6 +587,13 @@ INTERACTING = [
     "hdf5", "include_all", "include_fc", "nac", "fc_symmetry",
 ]
 
+# families of rows that interact: configurations of THREE tags are formed inside each family
+TRIPLE_FAMILIES = {
+    "mesh": ["mesh", "band", "dos", "pdos", "tprop", "tdisp", "tdispmat", "moment", "eigenvectors", "mesh_symmetry"],
+    "qpoints": ["qpoints", "writedm", "qpoints_format", "read_qpoints", "eigenvectors", "hdf5"],
+    "nac": ["nac", "q_direction", "nac_method", "qpoints", "band"],
+}
+
 # attributes without effect while another attribute has a given value (so that settings which differ
 # only there have the same effect): Phonopy.run_projected_dos ignores `direction` when xyz_projection,
 # phonopy_script._run_calculation reads the QPOINTS file when read_qpoints and ignores settings.qpoints
